@@ -111,7 +111,22 @@ def run_kernel(c):
                     solves = dict(min_weighted=min(seen), n_solves=len(seen), same_as_compiled=bool([int(v) for v in io] == [int(v) for v in o] and float(il[0]) == float(l)))
             except Exception as e:  # noqa
                 solves = dict(error=repr(e)[:200])
-        return dict(out=[int(v) for v in o], lopt=float(l), fixed_out=[int(v) for v in fx], solves=solves,
+        # the same series with other placeholders in its missing cells (huge magnitudes, NaN): band and lambda must not move
+        alts = []
+        gaps = y == nd
+        if gaps.any():
+            for ph in (-9999.0, 1e20, -3.4028234663852886e38, float("nan")):
+                if (y[~gaps] == ph).any():
+                    continue
+                y2 = y.copy()
+                y2[gaps] = ph
+                nd2 = nd if ph != ph else ph
+                if k == "wcv":
+                    o2, l2 = ops.ws2dwcv(y2, nd2, llas, bool(c["robust"]))
+                else:
+                    o2, l2 = ops.ws2dwcvp(y2, nd2, float(c["p"]), llas, bool(c["robust"]))
+                alts.append(dict(placeholder=repr(ph), out=[int(v) for v in o2], lopt=float(l2)))
+        return dict(out=[int(v) for v in o], lopt=float(l), fixed_out=[int(v) for v in fx], solves=solves, alts=alts,
                     cos=[[(j * math.pi) / n, math.cos((j * math.pi) / n)] for j in range(n)],
                     pow=[[float(x), pow(10.0, float(x))] for x in llas])
     raise ValueError(k)
